@@ -59,18 +59,32 @@ class Partition:
     pairs: frozenset[frozenset[str]]
     directed_pairs: frozenset[tuple[str, str]]
     _network: Network
+    _healed: bool = False
+    _epoch: int = 0
 
     @property
     def is_active(self) -> bool:
         """True if any of this partition's pairs are still active."""
+        if self._healed or self._epoch != self._network._partition_epoch:
+            return False
         if self.pairs & self._network._partitioned_pairs:
             return True
         return bool(self.directed_pairs & self._network._directed_partitions)
 
     def heal(self) -> None:
-        """Remove only this partition's pairs, leaving others intact."""
-        self._network._partitioned_pairs -= self.pairs
-        self._network._directed_partitions -= self.directed_pairs
+        """Remove only this partition's pairs, leaving others intact.
+
+        A pair that is also blocked by another, still active partition stays
+        blocked until that partition is healed too. Healing twice is a no-op.
+        """
+        if self._healed:
+            return
+        self._healed = True
+        network = self._network
+        if self._epoch != network._partition_epoch:
+            return  # already removed by Network.heal_partition()
+        network._partitioned_pairs -= network._release_pairs(self.pairs)
+        network._directed_partitions -= network._release_pairs(self.directed_pairs)
         logger.info(
             "[%s] Selective partition healed: %d bidirectional + %d directed pairs",
             self._network.name,
@@ -106,6 +120,13 @@ class Network(Entity):
 
     # Directed partition state: set of (source, dest) tuples (asymmetric)
     _directed_partitions: set[tuple[str, str]] = field(default_factory=set, init=False)
+
+    # How many active Partition handles block each pair (bidirectional
+    # frozenset or directed tuple); a pair is unblocked when its count drops to 0
+    _partition_refs: dict = field(default_factory=dict, init=False)
+
+    # Bumped by heal_partition(); handles created before it have nothing left to heal
+    _partition_epoch: int = field(default=0, init=False)
 
     # Track all known entities for partition validation
     _known_entities: dict[str, Entity] = field(default_factory=dict, init=False)
@@ -227,6 +248,9 @@ class Network(Entity):
                     bidirectional_pairs.add(pair)
                     self._partitioned_pairs.add(pair)
 
+        for key in bidirectional_pairs | directed_pairs:
+            self._partition_refs[key] = self._partition_refs.get(key, 0) + 1
+
         if asymmetric:
             logger.info(
                 "[%s] Asymmetric partition created: %s -X-> %s",
@@ -246,7 +270,20 @@ class Network(Entity):
             pairs=frozenset(bidirectional_pairs),
             directed_pairs=frozenset(directed_pairs),
             _network=self,
+            _epoch=self._partition_epoch,
         )
+
+    def _release_pairs(self, keys) -> set:
+        """Drop one partition handle's claim on ``keys``; return the pairs nobody blocks any more."""
+        freed = set()
+        for key in keys:
+            remaining = self._partition_refs.get(key, 0) - 1
+            if remaining > 0:
+                self._partition_refs[key] = remaining
+            else:
+                self._partition_refs.pop(key, None)
+                freed.add(key)
+        return freed
 
     def heal_partition(self) -> None:
         """Remove all network partitions, restoring full connectivity."""
@@ -254,6 +291,8 @@ class Network(Entity):
         num_directed = len(self._directed_partitions)
         self._partitioned_pairs.clear()
         self._directed_partitions.clear()
+        self._partition_refs.clear()
+        self._partition_epoch += 1
         logger.info(
             "[%s] All partitions healed: %d bidirectional + %d directed pairs restored",
             self.name,
